@@ -18,7 +18,7 @@ class Inconclusive(Exception):
 
 
 def install_stubs():
-    """(1) format(symbolic int) -> constant, (2) cattrs code generation under NoTracing."""
+    """(1) format(symbolic int) -> constant, (2) cattrs code generation under NoTracing, (4) lru_cache of the code under test modelled."""
     try:
         import crosshair.core as _cc
         from crosshair.core import NoTracing
@@ -48,6 +48,39 @@ def install_stubs():
 
     for _f in (cattrs.gen.make_dict_structure_fn, cattrs.gen.make_dict_unstructure_fn):
         _cc._PATCH_REGISTRATIONS[_f] = _untraced(_f)
+
+    # (4) functools.lru_cache: CrossHair calls the wrapped function and skips the cache, i.e. it assumes the function is
+    # pure and the key exact.  For caches defined in the code under test that assumption is the thing to be checked
+    # (a verdict memoised under a key that identifies 1, 1.0 and True; a result that depends on an earlier call), so
+    # those get a model of the cache instead: an association list per execution path, looked up with `==` on the
+    # argument tuple (which stays symbolic; the real cache hashes, hash-equal follows from == for the builtin numbers
+    # and strings), unhashable arguments raise TypeError as the real wrapper does.  Entries made before the path
+    # started (module import) are not modelled.  Caches of third-party code keep CrossHair's bypass.
+    from functools import _lru_cache_wrapper
+
+    def _lru_model(self, *a, **kw):
+        if not isinstance(self, _lru_cache_wrapper):
+            raise TypeError
+        fn = self.__wrapped__
+        with NoTracing():
+            own = str(getattr(fn, "__module__", "")).split(".")[0] in ("lsprotocol", "generator")
+            if own:
+                space = _cc.context_statespace()
+                store = space.__dict__.setdefault("_verif_lru", {}).setdefault(id(self), [])
+        if not own:
+            return fn(*a, **kw)
+        for v in tuple(a) + tuple(kw.values()):
+            if isinstance(v, (list, dict, set, bytearray)):
+                raise TypeError("unhashable type: %r" % type(v).__name__)
+        key = (a, tuple(sorted(kw.items())))
+        for k, r in store:
+            if k == key:
+                return r
+        r = fn(*a, **kw)
+        store.append((key, r))
+        return r
+
+    _cc._PATCH_REGISTRATIONS[_lru_cache_wrapper.__call__] = _lru_model
 
 
 install_stubs()
